@@ -10,16 +10,38 @@ Notation exists_b := (Inb.exists_b reqs).
 Notation Inv := (Inv reqs).
 
 Lemma inv_close s i s' :
-  Inv s -> exists_b i = true -> (a_pc (act s i) = PClose \/ a_pc (act s i) = PFClose) ->
+  Inv s -> exists_b i = true ->
+  (a_pc (act s i) = PClose \/ a_pc (act s i) = PFClose \/ a_pc (act s i) = PAClose) ->
   a_ref (act s i) = Some i -> do_close s i i (act s i) = s' -> Inv s'.
 Proof.
   intros HI He Hpc Hr Hs. unfold do_close in Hs.
   assert (Hd : e_done (ent s i) = false).
-  { apply (c_lead_open _ _ HI i Hr). destruct Hpc as [Hpc|Hpc]; rewrite Hpc; reflexivity. }
+  { apply (c_lead_open _ _ HI i Hr). destruct Hpc as [Hpc|[Hpc|Hpc]]; rewrite Hpc; reflexivity. }
   rewrite Hd in Hs. subst s'.
-  destruct Hpc as [Hpc|Hpc].
+  destruct Hpc as [Hpc|[Hpc|Hpc]].
   - solve_inv HI.
   - solve_inv HI.
+  - solve_inv HI.
+Qed.
+
+(* the deferred Abandon of a leader whose goroutine is unwinding a panic *)
+Lemma inv_tau_adelete s i s' :
+  Inv s -> exists_b i = true -> a_pc (act s i) = PADelete -> tau fixed reqs s i = Some s' -> Inv s'.
+Proof.
+  intros HI He Hpc Hs. unfold tau in Hs. rewrite Hpc in Hs.
+  destruct (a_ref (act s i)) as [j|] eqn:Hr; [|discriminate]. own HI j i.
+  assert (Hd : e_done (ent s i) = false).
+  { apply (c_lead_open _ _ HI i Hr). rewrite Hpc; reflexivity. }
+  rewrite Hd in Hs. start Hs.
+  solve_inv HI.
+Qed.
+
+Lemma inv_tau_aclose s i s' :
+  Inv s -> exists_b i = true -> a_pc (act s i) = PAClose -> tau fixed reqs s i = Some s' -> Inv s'.
+Proof.
+  intros HI He Hpc Hs. unfold tau in Hs. rewrite Hpc in Hs.
+  destruct (a_ref (act s i)) as [j|] eqn:Hr; [|discriminate]. own HI j i. start Hs.
+  eapply inv_close; eauto.
 Qed.
 
 Lemma inv_tau_close s i s' :
@@ -35,7 +57,7 @@ Lemma inv_tau_fclose s i s' :
 Proof.
   intros HI He Hpc Hs. unfold tau in Hs. rewrite Hpc in Hs.
   destruct (a_ref (act s i)) as [j|] eqn:Hr; [|discriminate]. own HI j i. start Hs.
-  eapply inv_close; eauto.
+  eapply inv_close; eauto 6.
 Qed.
 
 Lemma inv_tau_fdelete s i s' :
